@@ -200,7 +200,7 @@ func verifyFunc(l *Loaded, spec *FuncSpec, prop string) (res *FuncResult) {
 	// cover: preconditions satisfiable
 	cov := &Obligation{Name: x.oblName("cover/requires"), Kind: "cover", Func: fn.String(), Hyps: append([]T(nil), st.PC...), Goal: TFalse, Expect: "sat"}
 	x.obls = append(x.obls, cov)
-	returned := false
+	nReturned := 0
 	x.execBlock(st, fr, fn.Blocks[0], nil, func(s2 *State, result Val) {
 		fr2 := s2.Frames[0]
 		c := x.envFor(s2, x.entry, fr2, result)
@@ -235,9 +235,10 @@ func verifyFunc(l *Loaded, spec *FuncSpec, prop string) (res *FuncResult) {
 				}
 			}
 		}
-		if !returned {
-			returned = true
-			x.obls = append(x.obls, &Obligation{Name: x.oblName("cover/return"), Kind: "cover", Func: fn.String(), Hyps: append([]T(nil), s2.PC...), Goal: TFalse, Expect: "sat"})
+		if nReturned < 12 {
+			// reachability: some return path must be satisfiable (paths are not pruned, so single paths may be infeasible)
+			nReturned++
+			x.obls = append(x.obls, &Obligation{Name: fmt.Sprintf("%s~%d", x.oblName("cover/return"), nReturned), Kind: "cover-any", Func: fn.String(), Hyps: append([]T(nil), s2.PC...), Goal: TFalse, Expect: "sat"})
 		}
 	})
 	return
@@ -486,6 +487,30 @@ func discharge(results []*FuncResult, timeoutS int, shortFor map[string]bool) []
 		}
 	}
 	wg.Wait()
+	// cover-any groups: one satisfiable member is enough
+	groups := map[string][]*OblReport{}
+	for _, rep := range reps {
+		if rep.Kind == "cover-any" {
+			g := rep.Func + "|" + baseOblName(rep.Name)
+			groups[g] = append(groups[g], rep)
+		}
+	}
+	for _, g := range groups {
+		any := false
+		for _, rep := range g {
+			if rep.Status == "discharged" {
+				any = true
+			}
+		}
+		if any {
+			for _, rep := range g {
+				if rep.Status != "discharged" {
+					rep.Status = "discharged"
+					rep.Solver = "group(" + rep.Solver + ")"
+				}
+			}
+		}
+	}
 	sort.Slice(reps, func(i, j int) bool { return reps[i].Name < reps[j].Name })
 	return reps
 }
